@@ -6,7 +6,7 @@
 (* line per transition (history, call, expected result, expected tree)     *)
 (* which the Go driver replays against the real file systems.              *)
 (***************************************************************************)
-EXTENDS FsHandles, Json, CSV, IOUtils
+EXTENDS Wrappers, Json, CSV, IOUtils
 
 CONSTANTS Names,      \* names of the universe, e.g. {"a", "b"}
           MaxLen,     \* bound on the history length
@@ -194,6 +194,13 @@ Calls(s) ==
     IF Profile \in {"symq", "symchain"} THEN all ELSE {c \in all : ~Pruned(s, c)}
 
 EdgeFile == IF "VERIF_EDGES" \in DOMAIN IOEnv THEN IOEnv.VERIF_EDGES ELSE ""
+GenImpl == IF "VERIF_IMPL" \in DOMAIN IOEnv THEN IOEnv.VERIF_IMPL ELSE "none"
+
+\* what the OPEN deviations of the target implementation admit for this transition instead of the strict outcome:
+\* the driver accepts a replayed step that equals one of them without asking for a trace validation
+AltsOf(s, c) ==
+    UNION {{[impl |-> i, kf |-> o.kf, res |-> o.res, post |-> Proj(o.st), cwd |-> CwdPath(o.st), hs |-> HObs(o.st)]
+            : o \in DevOutcomes(i, s, CleanCall(c))} : i \in {"memfs", "orefafs"}}
 
 Emit(rec) == IF EdgeFile = "" THEN TRUE ELSE CSVWrite("%1$s", <<ToJson(rec)>>, EdgeFile)
 
@@ -212,6 +219,8 @@ Init ==
 \* configured profiles issue exactly one call from each initial state
 Budget == IF Profile \in {"symq", "symchain"} THEN 1 ELSE MaxLen
 
+EmitHist == IF Profile = "handles" THEN <<[C0 EXCEPT !.op = "writefile", !.p = FA, !.data = <<1, 2, 3>>, !.perm = 420]>> \o hist ELSE hist
+
 Next ==
     /\ (IF Profile \in {"symq", "symchain"} THEN last.call.op = "" ELSE Len(hist) < MaxLen)
     /\ \E c \in Calls(st) :
@@ -220,9 +229,12 @@ Next ==
         /\ st' = o.st
         /\ hist' = Append(hist, c)
         /\ last' = [call |-> c, res |-> o.res]
-        /\ Emit([hist |-> IF Profile = "handles" THEN <<[C0 EXCEPT !.op = "writefile", !.p = FA, !.data = <<1, 2, 3>>, !.perm = 420]>> \o hist ELSE hist,
+        /\ Emit([hist |-> EmitHist,
                  call |-> c, res |-> o.res, pre |-> Proj(st), post |-> Proj(o.st),
                  cwd |-> CwdPath(o.st), hs |-> HObs(o.st)])
+        \* one more line per outcome an open deviation admits instead (lines stay below the 8 KiB that one
+        \* appending write keeps intact when several TLC workers emit at once)
+        /\ \A a \in AltsOf(st, c) : Emit([t |-> "alt", hist |-> EmitHist, call |-> c, alt |-> a])
 
 Spec == Init /\ [][Next]_vars
 
